@@ -37,27 +37,32 @@ Fixpoint take_digits (bs : list N) (acc : list N) : list N * list N :=
 
 (* str::parse::<u64> / <i64> on a digit string already validated by the lexer *)
 Definition parse_json_number (bs : list N) : res (value * list N) :=
-  let '(negative, bs1) := match bs with 45 :: r => (true, r) | _ => (false, bs) end in
+  let '(negative, bs1) := match bs with c :: r => if c =? 45 then (true, r) else (false, bs) | [] => (false, bs) end in
   (* integer part *)
   let int_part : res (list N * list N) :=
     match bs1 with
-    | 48 :: r => match r with
-                 | c :: _ => if is_digit c then Err EOther else Ok ([48], r)
-                 | [] => Ok ([48], r)
-                 end
     | [] => Err EOther                       (* step_digits at end of input: InvalidEOF *)
-    | _ => let '(ds, r) := take_digits bs1 [] in
-           match ds with [] => Err EOther | _ => Ok (ds, r) end
+    | d :: r =>
+        if d =? 48 then
+          match r with
+          | c :: _ => if is_digit c then Err EOther else Ok ([48], r)
+          | [] => Ok ([48], r)
+          end
+        else let '(ds, r') := take_digits bs1 [] in
+             match ds with [] => Err EOther | _ => Ok (ds, r') end
     end in
   do (ids, bs2) <- int_part;
   let frac : res (option (list N) * list N) :=
     match bs2 with
-    | 46 :: r => match r with
-                 | [] => Err EOther
-                 | _ => let '(ds, r') := take_digits r [] in
-                        match ds with [] => Err EOther | _ => Ok (Some ds, r') end
-                 end
-    | _ => Ok (None, bs2)
+    | c :: r =>
+        if c =? 46 then
+          match r with
+          | [] => Err EOther
+          | _ => let '(ds, r') := take_digits r [] in
+                 match ds with [] => Err EOther | _ => Ok (Some ds, r') end
+          end
+        else Ok (None, bs2)
+    | [] => Ok (None, bs2)
     end in
   do (fds, bs3) <- frac;
   let expo : res (option (bool * list N) * list N) :=
@@ -65,9 +70,8 @@ Definition parse_json_number (bs : list N) : res (value * list N) :=
     | c :: r =>
         if (c =? 69) || (c =? 101) then
           let '(eneg, r1) := match r with
-                             | 43 :: r' => (false, r')
-                             | 45 :: r' => (true, r')
-                             | _ => (false, r) end in
+                             | s :: r' => if s =? 43 then (false, r') else if s =? 45 then (true, r') else (false, r)
+                             | [] => (false, r) end in
           match r1 with
           | [] => Err EOther
           | _ => let '(ds, r') := take_digits r1 [] in
